@@ -24,6 +24,15 @@ func isCypherSymbolPart(char rune) bool {
 	return isCypherIDContinue(char) || unicode.In(char, unicode.Sc)
 }
 
+// keywordsInvalidAsBarePropertyKeyName are the keyword tokens of the grammar that are neither reserved words nor
+// symbolic names: the lexer reads them as keywords wherever they occur, so as property keys they only parse in backticks.
+var keywordsInvalidAsBarePropertyKeyName = map[string]struct{}{
+	"ALLSHORTESTPATHS": {}, "ASSERT": {}, "CALL": {}, "COMMIT": {}, "CSV": {}, "CYPHER": {}, "EXPLAIN": {},
+	"FIELDTERMINATOR": {}, "FOREACH": {}, "FROM": {}, "HEADERS": {}, "INDEX": {}, "JOIN": {}, "LOAD": {}, "NODE": {},
+	"PERIODIC": {}, "PROFILE": {}, "REDUCE": {}, "REL": {}, "RELATIONSHIP": {}, "SCAN": {}, "SHORTESTPATH": {},
+	"START": {}, "USING": {}, "YIELD": {},
+}
+
 // CanEmitBarePropertyKeyName returns true when a raw property key can be emitted without backticks.
 //
 // This is specific to Cypher property-key position, such as n.name and {name: value}. Property keys use
@@ -32,6 +41,10 @@ func isCypherSymbolPart(char rune) bool {
 // keys outside the bare grammar are still representable by EscapePropertyKeyName using backticks.
 func CanEmitBarePropertyKeyName(name string) bool {
 	if name == "" {
+		return false
+	}
+
+	if _, isKeyword := keywordsInvalidAsBarePropertyKeyName[strings.ToUpper(name)]; isKeyword {
 		return false
 	}
 
